@@ -773,6 +773,18 @@ def run(ctx):
                 rep.violation(dict(kind="execute-lexical-error", cls=r.get("cls")),
                               "execute(%r): tokenise gives %s but execute() reports status %r, stderr %r" % (r["s"], r["line"], r.get("status"), r.get("err")),
                               dict(input=r["s"], impl=r))
+    # whitespace is whitespace through execute() too: the same text laid out with other space characters between its
+    # tokens evaluates to the same result (word-like tokens must not fuse); literals of more than 10000 digits lex exactly
+    canon = ["3 m s", "{k : k in 1..3}", "250 cm to m", "h = 2; h m", "1 + 2 * 3", "2 in {1, 2}", "12 500", "x = 4; x to m", "7 to m", "1 .. 3", "5 m to cm"]
+    wpairs = []
+    for t in canon:
+        for ws in ("\u00a0", "\u202f", "\t", "\u2009", "\u3000", "  ", "\u00a0 "):
+            wpairs.append((t.replace(" ", ws), t))
+    big = "1" * 10001
+    bigmod7 = sum(pow(10, k, 7) for k in range(10001)) % 7        # the value of the literal mod 7, without converting a 10001-digit string here
+    wpairs += [(big + " % 7", str(bigmod7)), ("0d" + big + " % 7", str(bigmod7)), ("(" + "9" * 12000 + " + 1) / 10^12000", "1"),
+               ("0x" + "F" * 9000 + " % 255", "0")]
+    C.seam_check(rep, ctx["rundir"], "C11", pairs=wpairs)
     lap("execute lane")
     total = sum(fam_count.values())
     rep.coverage.update(dict(
